@@ -1,3 +1,4 @@
 pub mod kv;
 pub mod prefix;
 pub mod addr;
+pub mod bank;
